@@ -86,7 +86,7 @@ CHECKS = {
     "C12": (
         "property-based testing / mutation fuzzing of specifications (corpus from the repository + own generated renderings) through every parser entry point; watchdog for termination; libFuzzer target fz_specs shares the oracle (thorough tier)",
         "exploration",
-        "Mutated near-valid .y/.l/%grmtools texts through ASTWithValidityInfo::new/from_str, YaccGrammar::new/from_str, warnings(), LRNonStreamingLexerDef::from_str/new_with_options (default and generated non-default flag sets), GrmtoolsSectionParser::parse: returns promptly, never panics, Ok or non-empty Err, validity flag consistent, every error/warning span inside the text on char boundaries.",
+        "Mutated near-valid .y/.l/%grmtools texts through ASTWithValidityInfo::new/from_str, YaccGrammar::new/from_str, warnings(), LRNonStreamingLexerDef::from_str/new_with_options (default and generated non-default flag sets), GrmtoolsSectionParser::parse: returns promptly, never panics, Ok or non-empty Err, validity flag consistent, every error/warning span inside the text on char boundaries, span count consistent with the error's kind, every error and warning rendered by the builders' diagnostics formatter without panicking.",
         "Termination = answer within 5 s (re-confirmed 50 s in a fresh process) for inputs <= 8 KB. Corpus in corpus/specs (tools/mkcorpus.py).",
         "DESIGN.md section 5, C12",
     ),
@@ -129,7 +129,7 @@ CHECKS = {
         "stateful property-based testing: generated build histories interpreted against the real compile-time builders (one process per build, logical file times), invariant checked after every build against a clean build",
         "exploration",
         "Histories over {edit grammar, edit lexer, touch, change one of 18 builder options (incl. every visibility variant, the storage type u32/u16/u8, strictness about missing tokens, the one-call lrpar_config flow, grammar_path switched between directories or through a symbolic link), edit the grammar at exactly the generated module's file time, break grammar (4 ways), break lexer, build}: after every build the generated modules equal a clean build's, regenerated() is false iff nothing changed, true after a grammar/option change, and a failed build leaves no generated file behind.",
-        "Trusted: the ctstep child process harness and the logical clock (filetime). A Touch may or may not regenerate.",
+        "Trusted: the ctstep child process harness and the logical clock (filetime). A Touch may or may not regenerate. Two open findings are tolerated exactly (one-call flow with an invalid lexer leaves the parser module; test_files not parsed again when the parser module is served from the cache).",
         "DESIGN.md section 5, C18",
     ),
     "C19": (
